@@ -240,6 +240,89 @@ def obj_eval(o, s):
                          exmat.from_flat(o["C"], p, n), exmat.from_flat(o["D"], p, m), s, p, m)
 
 
+def leaf_value(it, s):
+    """exact transfer matrix of a leaf of a program at s (None at a pole / unknown leaf kind)"""
+    try:
+        if it[0] == "SS":
+            _, _mt, n, p, m, _dt, A, B, C, D = it[:10]
+            return exmat.ss_eval(exmat.from_flat(A, n, n), exmat.from_flat(B, n, m),
+                                 exmat.from_flat(C, p, n), exmat.from_flat(D, p, m), s, p, m)
+        if it[0] == "TF":
+            _, _mt, p, m, _dt, ents, _dtype = it
+            Y = []
+            for i in range(p):
+                row = []
+                for j in range(m):
+                    nn, dd = ents[i * m + j]
+                    d = exact.pval([Fraction(x) for x in dd], s)
+                    if d == 0:
+                        return None
+                    row.append(exact.pval([Fraction(x) for x in nn], s) / d)
+                Y.append(row)
+            return Y
+        if it[0] == "ZPK":
+            _, _mt, _dt, zs, ps, kk = it
+            num = Fraction(kk)
+            for z in zs:
+                num *= (s - Fraction(z))
+            den = Fraction(1)
+            for q in ps:
+                den *= (s - Fraction(q))
+            return None if den == 0 else [[num / den]]
+    except Exception:  # noqa  (complex roots etc.: no bound, the plain tolerance applies)
+        return None
+    return None
+
+
+def op_term_scale(prog, s):
+    """for a program whose value is a sum of terms that may cancel (mixed-type + - *): the largest
+    entry of |A|+|B| resp. |A| |B| (entrywise absolute values, matrix product) at s - the magnitude the
+    rounding errors of the operands are relative to.  Conversions keep the value (that is the property),
+    so the stack is evaluated on the leaves.  None when it cannot be evaluated exactly."""
+    st = []
+    for it in prog:
+        k = it[0]
+        if k in ("SS", "TF", "ZPK"):
+            v = leaf_value(it, s)
+            if v is None:
+                return None
+            a = [[abs(x) for x in r] for r in v]
+            st.append((v, a))
+        elif k == "op":
+            if len(st) < 2:
+                return None
+            (vb, ab), (va, aa) = st.pop(), st.pop()
+            try:
+                if it[1] == "mul":
+                    if len(va) and len(vb) and len(va[0]) == 1 and len(va) == 1 and (len(vb), len(vb[0])) != (1, 1):
+                        va, aa = [[va[0][0] if i == j else Fraction(0) for j in range(len(vb))] for i in range(len(vb))], \
+                                 [[aa[0][0] if i == j else Fraction(0) for j in range(len(vb))] for i in range(len(vb))]
+                    elif len(vb) == 1 and len(vb[0]) == 1 and (len(va), len(va[0])) != (1, 1):
+                        k2 = len(va[0])
+                        vb, ab = [[vb[0][0] if i == j else Fraction(0) for j in range(k2)] for i in range(k2)], \
+                                 [[ab[0][0] if i == j else Fraction(0) for j in range(k2)] for i in range(k2)]
+                    if len(va[0]) != len(vb):
+                        return None
+                    st.append((exmat.mul(va, vb), exmat.mul(aa, ab)))
+                else:
+                    if (len(va), len(va[0])) != (len(vb), len(vb[0])):
+                        return None
+                    v = exmat.add(va, vb) if it[1] == "add" else exmat.sub(va, vb)
+                    st.append((v, exmat.add(aa, ab)))
+            except Exception:  # noqa
+                return None
+        elif k in ("cfg",):
+            continue
+        elif k in STEPS or k == "frd":
+            continue
+        else:
+            return None
+    if len(st) != 1:
+        return None
+    return exmat.maxabs(st[0][1]) if st[0][1] and st[0][1][0] else None
+
+
+
 def cond(fracs, s):
     """conditioning of the value at s with respect to relative perturbations of the coefficients:
     max over entries of (sum|n_k||s|^k + |Y| sum|d_k||s|^k) / (|d(s)| max(1,|Y|)); None at a pole"""
@@ -1169,9 +1252,12 @@ class C03(Family):
             return "%s.. %s %s.." % (cl[0], it[1], cl[-1])
         return it[0] if it[0] not in ("SS", "TF", "ZPK") else "leaf-" + it[0]
 
-    def values_differ(self, a, b):
+    def values_differ(self, a, b, prog=None):
         """transfer matrices of two canonical ss/tf objects at 2n+1 well-conditioned rational points;
-        returns (message | None, points used, worst ratio error/tolerance)"""
+        returns (message | None, points used, worst ratio error/tolerance).  For a program that ends in
+        mixed-type arithmetic the error is judged relative to the terms that are added (`op_term_scale`):
+        a result that is small or zero BY CANCELLATION (thorough seed 12: a 1x3 by 3x1 product that is
+        identically zero, computed as 1e-10) carries the rounding of its terms."""
         fr_b = obj_fracs(b)
         deg = max(max(len(dd) for row in fr_b for (_, dd) in row) - 1, 0)
         need = 2 * deg + 1
@@ -1189,6 +1275,10 @@ class C03(Family):
                         used, worst)
             used += 1
             sc = max(Fraction(1), exmat.maxabs(Yb))
+            if prog is not None and any(it[0] == "op" for it in prog):
+                ts = op_term_scale(prog, s)
+                if ts is not None:
+                    sc = max(sc, ts)
             tol = TAU * max(k, Fraction(1)) * sc
             err = max((abs(x - y) for r1, r2 in zip(Ya, Yb) for x, y in zip(r1, r2)), default=Fraction(0))
             worst = max(worst, float(err / tol))
@@ -1280,7 +1370,7 @@ class C03(Family):
                 return Verdict(VIOLATES, "frd(sys, omega) is not the system's response: " + d,
                                self.features(case, "value-frd", impl))
         else:
-            d, used, worst = self.values_differ(a, b)
+            d, used, worst = self.values_differ(a, b, case.get("prog"))
             self._last["ratio"] = worst
             self._last["points"] = used
             if d is not None:
